@@ -1,6 +1,6 @@
 From Coq Require Import Extraction ExtrOcamlBasic ZArith List.
 From C14 Require Import Model.
 Extraction "Model.ml" align_ptr is_aligned assert_ok max_size allocate_guard allocate
-  aligned_malloc aligned_free h_step vs_step vs_init v_contents m_load mread
+  aligned_malloc aligned_malloc_typed aligned_free h_step vs_step vs_init v_contents m_load mread
   scripted_malloc scripted_free bump_malloc bump_free gnu_vmax gnu_grow BASE
   Z.add Z.sub Z.mul Z.opp Z.div Z.modulo Z.eqb Z.ltb Z.leb Z.of_nat.
